@@ -138,7 +138,7 @@ def stats_of(events):
     return traces
 
 
-def v2_property(pid, tier, cfgs, cont, nontrivial, rule, level="model_checking", quick_limit=600, thorough_limit=None, extra=None, free=False, v1kinds=(), v1models=None, simple=False, v2rand=False):
+def v2_property(pid, tier, cfgs, cont, nontrivial, rule, level="model_checking", quick_limit=600, thorough_limit=40000, extra=None, free=False, v1kinds=(), v1models=None, simple=False, v2rand=False):
     v = Verdict(pid, tier, level)
     rnd = random.Random(seed())
     import time as _t
@@ -423,7 +423,7 @@ def check_C05(tier):
         cfgs.append(half)
     if tier == "thorough":
         cfgs += [mk("p3f3sat", [3, 2, 1], 3, "fair", 1, 0, sat=True), mk("p2revsat", [2, 1], 3, "rev", 2, 0, sat=True),
-                 mk("p4sat", [4, 3, 2, 1], 10, "rate", 1, 0, sat=True)]
+                 mk("p4sat", [4, 3, 2, 1], 7, "rate", 1, 0, sat=True), mk("p4fsat", [4, 3, 2, 1], 5, "fair", 1, 0, sat=True)]
     return v2_property("C05", tier, cfgs, "stall",
                        nontrivial=lambda t: t["Q"] is not None and t["R"] > t["reset"]["H"],
                        rule="saturated PrioV2 configurations (infinite supply, every release order and grouping enumerated by TLC); paths replayed "
